@@ -1,5 +1,5 @@
 SPECIFICATION Spec
-CONSTANTS SelfNamed = FALSE Lean = FALSE DirSet = {1, 2, 3} MaxDefs = 2 Rich = FALSE Entry = "namespace" Bodies = {"ok","print"} AsFoundTwoObjects = TRUE AsFoundPrintPath = FALSE
+CONSTANTS SelfNamed = FALSE Lean = FALSE DirSet = {1, 2, 3} MaxDefs = 2 Rich = FALSE Entry = "namespace" Bodies = {"ok","print"} Dups = FALSE AsFoundTwoObjects = TRUE AsFoundPrintPath = FALSE
 INVARIANT ResolvesExactly
 INVARIANT BadReferenceFails
 INVARIANT AcyclicWhenOk
